@@ -43,18 +43,18 @@ type c16Type struct {
 var c16Ops = []string{"=", "!=", "<", "<=", ">", ">="}
 
 var c16Types = []c16Type{
-	{"int8", "int8", []string{"10", "-5", "0.5"}},
+	{"int8", "int8", []string{"10", "-5", "0.5", "010", "08"}},
 	{"int16", "int16", []string{"10", "-300"}},
 	{"int32", "int32", []string{"10", "-70000", "10.5"}},
 	{"int64", "int64", []string{"10", "-5000000000", "9007199254740993"}},
 	{"uint8", "uint8", []string{"10", "200"}},
-	{"uint16", "uint16", []string{"10", "40000"}},
+	{"uint16", "uint16", []string{"10", "40000", "0100", "009"}},
 	{"uint32", "uint32", []string{"10", "3000000000"}},
 	{"uint64", "uint64", []string{"10", "9223372036854775807", "9223372036854775808", "18446744073709551615", "0.5"}},
-	{"decimal64", "decimal64 { fraction-digits 2; }", []string{"1.5", "-1.5", "10"}},
+	{"decimal64", "decimal64 { fraction-digits 2; }", []string{"1.5", "-1.5", "10", "010", "01.5"}},
 	{"string", "string", []string{"'m'", "'ab'"}},
 	// XPath 1.0 3.4: a string compared with a number counts as the number it reads as (NaN if none)
-	{"string-number", "string", []string{"2", "1.5", "-3"}},
+	{"string-number", "string", []string{"2", "1.5", "-3", "010"}},
 	{"boolean", "boolean", []string{"'true'", "'false'"}},
 	{"enumeration", "enumeration { enum zero; enum one; enum five { value 5; } }", []string{"'one'", "'five'"}},
 	{"identityref", "identityref { base base-id; }", []string{"'id-b'"}},
